@@ -470,4 +470,29 @@ theorem prefix_lt_iff (p a b : String) : p ++ a < p ++ b ↔ a < b := by
   rw [String.lt_iff, String.lt_iff, String.toList_append, String.toList_append]
   exact list_prefix_lt_iff _ _ _
 
+/-- a segment of a trace that keeps the held set can be replaced by any other segment that keeps it -/
+theorem replace_segment (a x y b : Trace) (h0 h : List Key)
+    (ha : R h0 a = some h) (hx : R h x = some h) (hy : R h y = some h) :
+    R h0 (a ++ x ++ b) = R h0 (a ++ y ++ b) := by
+  simp only [R, run_append] at *
+  simp [ha, hx, hy]
+
+/-- in particular a nested bracket (e.g. `withWorkloadLocked` under a held pod lock) whose
+    acquisition fails — at any position of the bracket: the first `j` keys were taken and are
+    released again, the callback does not run — leaves a disciplined trace -/
+theorem nested_failure_ok (a b : Trace) (g : Nat) (names : List String) (body : Trace) (j : Nat) (h : List Key)
+    (ha : R [] a = some h)
+    (hp : names.Pairwise (· < ·))
+    (hlt : ∀ x ∈ h, ∀ n ∈ names, keyLt x ⟨g, n⟩ = true)
+    (hop : g = gNodeOp → ∀ x ∈ h, x.group = gNodeOp)
+    (hbody : R ((names.map (Key.mk g)).reverse ++ h) body = some ((names.map (Key.mk g)).reverse ++ h))
+    (hall : R [] (a ++ ((names.map (Key.mk g)).map .acq ++ body ++ (names.map (Key.mk g)).reverse.map .rel) ++ b) = some []) :
+    R [] (a ++ (((names.take j).map (Key.mk g)).map .acq ++ [] ++ ((names.take j).map (Key.mk g)).reverse.map .rel) ++ b) = some [] := by
+  have hx := bracket_ok g names h body hp hlt hop hbody
+  have hpj : (names.take j).Pairwise (· < ·) := hp.sublist (List.take_sublist j names)
+  have hy := bracket_ok g (names.take j) h [] hpj
+    (fun x hxm n hn => hlt x hxm n (List.mem_of_mem_take hn)) hop (by simp [R, run])
+  rw [← replace_segment a _ _ b [] h ha hx hy]
+  exact hall
+
 end Eru.Lock
